@@ -92,28 +92,56 @@ structure TlsParams (R S : Type) where
   isTls : Bytes → Bool                    -- `is_tls_traffic`
   ttlMs : Nat := 20000
 
+/-- With the flow's reader in hand: `reader.add_bytes` mutates the reader in place; on success or
+error the flow is removed right after, so the table ends up as after a plain `remove` (the transient
+write is not modelled). -/
+def tlsWithReader {R S : Type} (P : TlsParams R S) (key : FlowKey) (payload : Bytes) (r : R) :
+    Prog FlowKey R Unit Unit (Option S) :=
+  match P.addBytes r payload with
+  | (_, .sig x) => .remove key (.ret (some x))
+  | (r', .pending) => .set key r' (.ret none)
+  | (_, .err) => .remove key (.ret none)
+
 def tlsProg {R S : Type} (P : TlsParams R S) (s : Seg) :
     Prog FlowKey R Unit Unit (Option S) :=
   let key : FlowKey := ⟨s.src, s.dst⟩
   if s.payload.isEmpty then .ret none else
   .get key fun active =>                       -- contains_key
     if !(active.isSome || P.isTls s.payload) then .ret none else
-    -- `reader.add_bytes` mutates the reader in place; on success or error the flow is removed right
-    -- after, so the table ends up as after a plain `remove` (the transient write is not modelled)
-    let withReader (r : R) : Prog FlowKey R Unit Unit (Option S) :=
-      match P.addBytes r s.payload with
-      | (_, .sig x) => .remove key (.ret (some x))
-      | (r', .pending) => .set key r' (.ret none)
-      | (_, .err) => .remove key (.ret none)
     .get key fun r =>                          -- get_mut
       match r with
-      | some r => withReader r
+      | some r => tlsWithReader P key s.payload r
       | none =>
         .insert key P.newReader P.ttlMs <|
           .get key fun r =>
             match r with
-            | some r => withReader r
+            | some r => tlsWithReader P key s.payload r
             | none => .ret none                -- "Failed to retrieve flow after insert" → Err → no result
+
+/-- `TlsClientHelloReader`: buffer and the "signature already parsed" flag. -/
+structure Reader where
+  buf : Bytes := []
+  done : Bool := false
+  deriving Repr
+
+/-- `TlsClientHelloReader::add_bytes` with the ClientHello parser as a parameter
+(`parse` gets `buffer[..needed]`). -/
+def readerAdd {S : Type} (parse : Bytes → AddRes S) (r : Reader) (data : Bytes) : Reader × AddRes S :=
+  if r.done then (r, .pending) else
+  let buf := r.buf ++ data
+  if buf.length < 5 then ({ buf := buf }, .pending) else
+  let needed := (buf.getD 3 0).toNat * 256 + (buf.getD 4 0).toNat + 5
+  if buf.getD 0 0 != 0x16 then ({}, .pending) else          -- discarded (fix c9b8c8f)
+  if buf.length < needed then ({ buf := buf }, .pending) else
+  if needed > 64 * 1024 then ({}, .err) else
+  match parse (buf.take needed) with
+  | .sig x => ({ buf := buf.drop needed, done := true }, .sig x)
+  | .pending => ({}, .pending)                                -- not a ClientHello: reset
+  | .err => ({ buf := buf }, .err)
+
+/-- The TLS analyzer with the real reader logic (parser still a parameter). -/
+def tlsParamsOf {S : Type} (parse : Bytes → AddRes S) (isTls : Bytes → Bool) : TlsParams Reader S :=
+  { newReader := {}, addBytes := readerAdd parse, isTls := isTls }
 
 /-! ### HTTP (`huginn-net-http/src/http_process.rs`) -/
 
@@ -277,5 +305,39 @@ def httpAnalyzer {γ Q P : Type} (H : HttpParams γ Q P) :
 
 def tcpKeyOf (fc : Seg → Bool) (s : Seg) : TcpKey := ⟨s.src, s.dst, fc s⟩
 def flowKeyOf (s : Seg) : FlowKey := ⟨s.src, s.dst⟩
+
+/-! ### size and work measures (C11) -/
+
+def sumLen (ds : List TcpData) : Nat := (ds.map (fun d => d.data.length)).sum
+
+/-- Payload bytes a flow retains. -/
+def TcpFlow.bytes (f : TcpFlow) : Nat := sumLen f.clientData + sumLen f.serverData
+
+/-- Bytes copied, sorted, concatenated or handed to a parser for one segment, given the flow found
+for it (`none`: no flow) and whether it was found under the packet's own key.
+Per parser invocation and per concatenation: the length of the buffer; `has_complete_http_data`
+plus the parse proper make at most three invocations. -/
+def httpWork (maxHead : Nat) (f : Option TcpFlow) (isClient : Bool) (s : Seg) : Nat :=
+  match f with
+  | none => s.payload.length                      -- a SYN stores its payload
+  | some f =>
+    if s.payload.isEmpty then 0 else
+    if isClient && s.src = f.client then
+      if !f.clientParsed then
+        let full := sumLen f.clientData + s.payload.length
+        s.payload.length + full + (if full > maxHead then 0 else 3 * full)
+      else 0
+    else if s.src = f.server then
+      if !f.serverParsed then
+        let full := sumLen (if isClient then f.clientData else f.serverData) + s.payload.length
+        s.payload.length + full + (if full > maxHead then 0 else 3 * full)
+      else 0
+    else 0
+
+/-- TLS: append the payload; parse at most one record prefix of at most 64 KiB + 5. -/
+def tlsWork (r : Option Reader) (s : Seg) : Nat :=
+  s.payload.length + (match r with
+    | some r => if r.done then 0 else min (r.buf.length + s.payload.length) (64 * 1024 + 4)
+    | none => min s.payload.length (64 * 1024 + 4))
 
 end Huginn.FlowProgs
